@@ -266,8 +266,10 @@ func c03Judge(w *mon.W, c c03Case) {
 		}
 		if d != nil && math.Abs(d.P-sd.P) > 1e-9 {
 			// the swapped call may itself be a D3 case (judged as such when it is generated as a base case)
-			tab := uCache.Get(T, n2)
-			if exact && ties && math.Abs(sd.P-d3Signature(tab, twoUDef(c.X2, c.X1))) <= 1e-12 {
+			// (the exact table only on the exact path: for an approximate-path
+			// case it has hundreds of ranks and the monitor would spend hours and
+			// gigabytes building it instead of reporting)
+			if exact && ties && math.Abs(sd.P-d3Signature(uCache.Get(T, n2), twoUDef(c.X2, c.X1))) <= 1e-12 {
 				w.Known("D3", "swap-two-sided", fmt.Sprintf("%s: two-sided P=%.12g, swapped %.12g", cfg, d.P, sd.P), c)
 			} else {
 				w.Violate("swap-two-sided", fmt.Sprintf("%s: two-sided P=%.12g, swapped %.12g", cfg, d.P, sd.P), c)
